@@ -97,10 +97,11 @@ class ScriptedSession(FakeSession):
 
     async def request(self, method: str, url: str, **kw: Any) -> FakeResponse:  # type: ignore[override]
         env = self.env
-        if self._closed:
-            raise RuntimeError("Session is closed")
         task = asyncio.current_task()
         who = task.get_name() if task else '?'
+        if self._closed:
+            env.log('attempt', who=who, session=self.name, answer='closed')
+            raise RuntimeError("Session is closed")
         lat = getattr(self, 'latency', {}).get(who)
         if lat:
             await asyncio.sleep(lat)     # a slow answer: it may arrive after somebody else has already re-authenticated
@@ -196,8 +197,11 @@ class ReauthScenario(Scenario):
             env.log('login', n=k)
             if login_time:
                 await asyncio.sleep(login_time)
+            if self.params.get('reoffer') and k >= 2:
+                # the login handler has nothing better to offer than the credentials that were invalidated first
+                return credentials.AiohttpSession(server=World.SERVER, aiohttp_session=s1)  # type: ignore[arg-type]
             s = ScriptedSession(env.world, env, [], f's{k + 1}')
-            if self.params.get('second_expires') and k == 1:
+            if (self.params.get('second_expires') and k == 1) or (self.params.get('reoffer') and k == 1):
                 s.valid = False
             sessions.append(s)
             return credentials.AiohttpSession(server=World.SERVER, aiohttp_session=s)  # type: ignore[arg-type]
@@ -227,6 +231,23 @@ class ReauthScenario(Scenario):
     def check(self, env: Env) -> list[Violation]:
         out = []
         logins = [t for t, k, p in env.obs if k == 'login']
+        if self.params.get('reoffer'):
+            # s1 invalid -> login -> s2 invalid -> login offers s1 again: known-invalid credentials are not taken back; with nothing else on
+            # offer every blocked request fails with a login error - and nobody is sent round in circles
+            out = []
+            results = {p['who']: p['outcome'] for _, k, p in env.obs if k == 'result'}
+            want = [f"r{i}" for i in range(self.params['concurrent'])] + ['late']
+            if env.end_reason in ('step-budget', 'livelock', 'stall') or len(logins) > 4:
+                out.append(self.viol(env, 'invalidated-credentials-reused', f"{len(logins)} login activities and counting: the credentials invalidated first were "
+                                                                           f"accepted again when re-offered (execution ended: {env.end_reason})", what='loop'))
+            for who in want:
+                if results.get(who) not in ('LoginError',) and who in results:
+                    out.append(self.viol(env, 'invalidated-credentials-reused', f"request {who} ended with {results.get(who)} although only invalidated credentials were on offer",
+                                         what='outcome'))
+            stale = [(t, p['who']) for t, k, p in env.obs if k == 'attempt' and p['session'] == 's1' and any(tt < t for tt, kk, pp in env.obs if kk == 'attempt' and pp['session'] == 's2')]
+            if stale:
+                out.append(self.viol(env, 'invalidated-credentials-reused', f"requests went back to the invalidated first session after the second one: {stale[:4]}", what='attempt'))
+            return out
         want_logins = 2 if self.params.get('second_expires') else 1
         if len(logins) != want_logins:
             out.append(self.viol(env, 'login-count', f"{len(logins)} login activities for {want_logins} invalidation(s) with {self.params['concurrent']}+1 blocked requests",
@@ -413,6 +434,7 @@ def run(tier: str, seed: int) -> CheckResult:
     # one request sleeps in its retry backoff after a 5xx while the others' 401 makes the session be replaced under it
     reauth += [ReauthScenario(concurrent=n, login_time=lt, second_expires=False, latency=None, first_answers=fa)
                for n in (2, 3) for lt in (0.0, 0.5, 2.0) for fa in ({'r0': '500'}, {'r1': '503'}, {'r0': '500', 'late': '500'})]
+    reauth += [ReauthScenario(concurrent=n, login_time=lt, second_expires=False, latency=None, reoffer=True) for n in (1, 3) for lt in (0.0, 1.0)]
     groups = [('reauth', reauth, 1 if tier == 'quick' else 2, 30.0), ('throttling', throttle_scenarios(tier), 1 if tier == 'quick' else 2, 60.0 if tier == 'quick' else 600.0)]
     st2, v2, info, nscen = run_groups(groups, seed=seed)
     retry_execs = total.executions
